@@ -1,7 +1,7 @@
 #!/usr/bin/env python3
 """Copy the seeded changes I confirmed (tools/seedverify.py: a, b and c all true) into /verif/seeded/<Cxx>-<k>/.
 
-usage: seed_import.py <seed-root> <verify-outdir>
+usage: seed_import.py <seed-root> <verify-outdir> [tag]      (tag, e.g. r2, names the directories <Cxx>-<tag>-<k>)
 
 Each kept directory holds patch.diff (the change), demo.diff (the demonstration: a test that passes without
 the change and fails with it) and meta.json (what it breaks, what it needs to manifest, what I ran).
@@ -16,6 +16,7 @@ VERIF = os.path.dirname(os.path.dirname(os.path.abspath(__file__)))
 
 def main():
     root, vout = sys.argv[1], sys.argv[2]
+    tag = (sys.argv[3] + '-') if len(sys.argv) > 3 else ''
     dest = os.path.join(VERIF, 'seeded')
     os.makedirs(dest, exist_ok=True)
     rej_path = os.path.join(dest, 'REJECTED.json')
@@ -25,7 +26,7 @@ def main():
             continue
         v = json.load(open(os.path.join(vout, f)))
         prop, k = v['seed'].split('/')
-        sid = f'{prop}-{k}'
+        sid = f'{prop}-{tag}{k}'
         src = os.path.join(root, prop, k)
         ok = v.get('patch_applies') and v.get('demo_applies') and v.get('a_clean_demo_passes') and v.get('b_patched_demo_fails') and v.get('c_baseline_passes')
         if not ok:
